@@ -8,7 +8,10 @@ import (
 	"math"
 	"strings"
 
+	"github.com/tobgu/qframe/config/eval"
 	"github.com/tobgu/qframe/config/groupby"
+	qsql "github.com/tobgu/qframe/config/sql"
+	"github.com/tobgu/qframe/internal/vxsql"
 	"github.com/tobgu/qframe/internal/vx"
 	"github.com/tobgu/qframe/types"
 )
@@ -111,6 +114,29 @@ func c01op(op string, f, g QFrame) []QFrame {
 		return []QFrame{f.Drop("f")}
 	case "copy":
 		return []QFrame{f.Copy("z", "a")}
+	case "copy_y":
+		return []QFrame{f.Copy("y", "f")}
+	case "rownums_new":
+		return []QFrame{f.WithRowNums("num")}
+	case "eval_new":
+		return []QFrame{f.Eval("ev", Expr("+", types.ColumnName("a"), c))}
+	case "apply_new":
+		return []QFrame{f.Apply(Instruction{Fn: func(x int) int { return vx.UFInt("g", x) }, DstCol: "ap", SrcCol1: "a"})}
+	case "aggregate_nokey":
+		return []QFrame{f.GroupBy().Aggregate(Aggregation{Fn: "sum", Column: "a"}, Aggregation{Fn: "max", Column: "f"})}
+	case "qframes_aggregate":
+		// group frames handed out earlier must survive a later Aggregate on the same Grouper
+		g := f.GroupBy(groupby.Columns("c"))
+		qs, _ := g.QFrames()
+		var before []c01snap
+		for _, q := range qs {
+			before = append(before, c01observe(q))
+		}
+		r := g.Aggregate(Aggregation{Fn: "sum", Column: "a"}, Aggregation{Fn: func(xs []int) int { return vx.UFInt("agg", len(xs)) }, Column: "a2"})
+		for k, q := range qs {
+			c01same(before[k], c01observe(q), "group frame after Aggregate")
+		}
+		return append(qs, r)
 	case "copy_over":
 		return []QFrame{f.Copy("a2", "f")}
 	case "apply_fn1":
@@ -155,6 +181,19 @@ func c01op(op string, f, g QFrame) []QFrame {
 	case "x_append_spare": // deliberately wrong (false twin): appends into spare capacity of a shared index
 		_ = append(f.index, 0)
 		return nil
+	case "filter_ilike":
+		return []QFrame{f.Filter(Filter{Column: "s", Comparator: "ilike", Arg: "y%"}), f.Filter(Filter{Column: "e", Comparator: "ilike", Arg: "%B"})}
+	case "filter_like_regex":
+		return []QFrame{f.Filter(Filter{Column: "s", Comparator: "like", Arg: "Y."}), f.Filter(Filter{Column: "s", Comparator: "ilike", Arg: "Y."})}
+	case "eval_ctx":
+		ctx := eval.NewDefaultCtx()
+		ctx.SetFunc("twice", func(x int) int { return vx.UFInt("tw", x) })
+		return []QFrame{f.Eval("tw", Expr("twice", types.ColumnName("a")), eval.EvalContext(ctx))}
+	case "tosql":
+		vxsql.Reset()
+		f.ToSQL(vxsql.Tx(), qsql.Table("t"), qsql.SQLite())
+		f.ToSQL(vxsql.Tx(), qsql.Table("t"), qsql.Postgres())
+		return nil
 	case "equals":
 		f.Equals(g)
 		g.Equals(f)
@@ -177,8 +216,12 @@ func VX_C01_persist() {
 		ec.s[k] = []string{"b", "c", "", "a"}[k%4]
 		ec.null[k] = k%4 == 2
 	}
-	cols := []vxCol{vxMakeColLite("int", P), vxMakeColLite("float", P), vxMakeColLite("bool", P), sc, ec}
-	vx.ConstrainHash(3, 0, 1)
+	bc := vxCol{typ: "bool", b: make([]bool, P)}
+	for k := range bc.b {
+		bc.b[k] = k%2 == 0 // concrete: grouping by c is deterministic here
+	}
+	cols := []vxCol{vxMakeColLite("int", P), vxMakeColLite("float", P), bc, sc, ec}
+	vx.ConstrainHash(3, 0)
 	base := vxFrame(names, cols, nil).Copy("a2", "a") // column storage shared between a and a2
 	ix := make([]uint32, P) // a fixed non-identity arrangement: 2,0,1,...
 	for k := range ix {
@@ -188,6 +231,13 @@ func VX_C01_persist() {
 	family := []QFrame{base, f0}
 	snaps := []c01snap{c01observe(base), c01observe(f0)}
 	strict := vx.ParamBool("strict")
+	// a Grouper obtained earlier is part of the family: its groups must stay what they were
+	g0 := f0.GroupBy(groupby.Columns("c"))
+	g0frames, _ := g0.QFrames()
+	var g0snaps []c01snap
+	for _, q := range g0frames {
+		g0snaps = append(g0snaps, c01observe(q))
+	}
 	for step, op := range ops {
 		target := family[len(family)-1]
 		if vx.HasParam("on0") && step > 0 {
@@ -197,13 +247,30 @@ func VX_C01_persist() {
 		for k := range family {
 			fam[k] = family[k]
 		}
+		fam = append(fam, g0)
 		vx.Freeze("family", fam...)
-		w0 := vx.FrozenWrites()
-		res := c01op(op, target, f0)
-		w1 := vx.FrozenWrites()
+		if strict {
+			vx.FreezeGlobals()
+		}
+		w0, s0 := vx.FrozenWrites(), vx.SharedWrites()
+		var res []QFrame
+		if op == "grouper_aggregate" {
+			res = []QFrame{g0.Aggregate(Aggregation{Fn: "sum", Column: "a"}), g0.Aggregate(Aggregation{Fn: "max", Column: "f"})}
+		} else {
+			res = c01op(op, target, f0)
+		}
+		w1, s1 := vx.FrozenWrites(), vx.SharedWrites()
 		vx.Thaw()
 		if strict {
 			vx.Check(w1 == w0, "no store into memory that existed before the call ("+op+")")
+			vx.Check(s1 == s0, "no mutation of package-level or other process-wide state ("+op+")")
+		}
+		now, _ := g0.QFrames()
+		vx.Check(len(now) == len(g0frames), "earlier Grouper: same number of groups")
+		for k := range now {
+			if k < len(g0snaps) {
+				c01same(g0snaps[k], c01observe(now[k]), "earlier Grouper's groups after "+op)
+			}
 		}
 		for k := range family {
 			c01same(snaps[k], c01observe(family[k]), "member "+string(rune('0'+k))+" after "+op)
